@@ -246,7 +246,7 @@ func TestVerifC10Deletes(t *testing.T) {
 				note("write", fmt.Sprint(len(pts)))
 			},
 			"bigwrite": func(rt *rapid.T) {
-				if rapid.IntRange(0, 3).Draw(rt, "rare") != 0 {
+				if rapid.IntRange(0, 1).Draw(rt, "rare") != 0 {
 					rt.Skip("rare")
 				}
 				shard := rapid.SampledFrom(b.shards).Draw(rt, "shard")
